@@ -28,8 +28,10 @@ type TypeDef struct {
 	Att        *Att    `json:"att"`
 	Identifier string  `json:"identifier,omitempty"`
 	Views      []*View `json:"views,omitempty"`
-	Extend     string  `json:"extend,omitempty"`
-	Reference  string  `json:"reference,omitempty"`
+	// RenderView: View("name") without DSL inside the result type (the view it is rendered with by default)
+	RenderView string `json:"render_view,omitempty"`
+	Extend     string `json:"extend,omitempty"`
+	Reference  string `json:"reference,omitempty"`
 }
 
 // View of a result type.
